@@ -274,6 +274,8 @@ class Verdict:
     def finish(self):
         for fid, e in self.findings.hit.items():
             print("KNOWN-FINDING: property=%s %s: %s" % (self.prop, fid, e.get("what", "")))
+        if self.tier not in ("canary", "par"):
+            _REPRODUCED[self.prop] = {"ids": sorted(self.findings.hit), "failing_cases_explained": self.known}
         if not self.violations:
             return 0
         (VERIF / "replays").mkdir(exist_ok=True)
@@ -294,7 +296,12 @@ class Verdict:
         return 1
 
 
+_REPRODUCED = {}
+
+
 def write_evidence(prop, tier, seed, coverage, assumptions, wall, violations, level="model_checking"):
+    if _REPRODUCED.get(prop, {}).get("ids"):
+        coverage = dict(coverage, known_findings_reproduced_this_run=_REPRODUCED[prop])
     ev = {"property_id": prop, "tier": tier, "seed": seed, "level": level,
           "coverage": coverage, "assumptions": assumptions, "wall_s": round(wall, 2),
           "violations": violations}
@@ -579,6 +586,18 @@ def validate_traces_generic(specdir, module, cfg, traces, stats, verdict, subjec
         rej = {}
         for p in r.payloads("REJECT"):
             rej.setdefault(p["tid"], p)
+        notes = {}
+        for p in r.payloads("NOTE"):
+            notes.setdefault((p["tid"], p.get("what"), json.dumps({k: v for k, v in p.items() if k not in ("tid", "l", "len", "mechanism_len")}, sort_keys=True)), p)
+        for (j, what, _), p in sorted(notes.items(), key=lambda kv: (kv[0][0], kv[1]["l"])):
+            tr = parts[i][j - 1]
+            ev = tr["ev"][p["l"] - 1]
+            opf = ev.get("op") if isinstance(ev.get("op"), dict) else {}
+            sig = {"subject": subject, "op": opf.get("op"), "variant": ev.get("variant") or None, "what": what}
+            sig.update({k: v for k, v in p.items() if k not in ("tid", "l", "what", "len", "mechanism_len")})
+            verdict.fail(sig, {"trace_meta": {k: v for k, v in tr.items() if k != "ev"}, "noted_at_event": p["l"], "note": p, "event": ev,
+                               "history": [dict(e["op"], _variant=e.get("variant")) if isinstance(e.get("op"), dict) else e.get("call", e.get("op"))
+                                           for e in tr["ev"][:p["l"]]]})
         for j, tr in enumerate(parts[i], 1):
             stats.trace_events += len(tr["ev"])
             if j in acc:
